@@ -35,10 +35,11 @@ func mk(n, spare int) []int {
 	return full[:n]
 }
 
-// clipped is the behavioural reading of "capacity-clipped": s[:cap(s)] must
-// not overlap any element of the input that lies after s.
+// clipped: the property calls the results "capacity-clipped": cap == len, so
+// that appending to a result can never write into the backing array of the
+// input (neither over later elements nor over spare capacity behind it).
 func clipped(s, in []int, off int) bool {
-	return cap(s) == len(s) || off+len(s) >= len(in)
+	return cap(s) == len(s)
 }
 
 func mustPanic(f func()) (p any) {
@@ -75,7 +76,7 @@ func check(c tcase) *mc.Failure {
 				seen[v] = true
 			}
 			if !clipped(res, in, 0) {
-				return mc.Failf(0, "Partition(mask %b) result len %d cap %d is not clipped: appending would overwrite a later element of the input", c.Arg, len(res), cap(res))
+				return mc.Failf(0, "Partition(mask %b) result len %d cap %d is not capacity-clipped: appending to it would write into the input's backing array", c.Arg, len(res), cap(res))
 			}
 			if full := in[:cap(in)]; len(full) > n && full[n] != -100-n {
 				return mc.Failf(0, "Partition wrote beyond the slice")
@@ -152,7 +153,7 @@ func check(c tcase) *mc.Failure {
 					}
 				}
 				if !clipped(ch, in, off) {
-					return mc.Failf(0, "%s(len %d, %d): piece %d (offset %d, len %d, cap %d) is not clipped: appending would overwrite the next element of the input", c.Fn, n, a, i, off, len(ch), cap(ch))
+					return mc.Failf(0, "%s(len %d, %d): piece %d (offset %d, len %d, cap %d) is not capacity-clipped: appending to it would write into the input's backing array", c.Fn, n, a, i, off, len(ch), cap(ch))
 				}
 				off += len(ch)
 			}
@@ -284,7 +285,7 @@ func main() {
 			r.Bound("rotate_max_len", rotLen)
 			r.Bound("spare_capacity", "0..2, plus the nil slice")
 			r.Rule("Partition: all 2^n keep patterns; Rotate: all k in -n-2..n+2; Chunks/Batches: n in -1..len+2; Head/Tail: 0..len+2; At/PtrAt: -len-2..len+1; Stripe: all ragged shapes up to 3x3; non-trivial = cases on slices of length >= 2")
-			r.Assume("capacity-clipped is read behaviourally: s[:cap(s)] of a returned subslice must not overlap any element of the input after s (DESIGN.md section 7)")
+			r.Assume("capacity-clipped means cap == len for the Partition result and for every chunk/batch; checked with spare capacity 0..2 behind the input")
 			r.Sample(tcase{Fn: "Rotate", Len: 7, Arg: -1})
 			r.Sample(tcase{Fn: "Batches", Len: 0, Arg: 1})
 		},
